@@ -294,6 +294,28 @@ def run_cases(cases, always_oracle=True):
             if r is not None:
                 oracle_failures.append({"suite": c.suite, "cls": c.cls, "req": c.req,
                                         "info": c.info, "failure": r, "_case": c})
+    # second pass, in reverse order: the implementation's answer must be a function of the request alone
+    # (module-level caches, class attributes shared between instances, objects reused across calls make it
+    # depend on what was built before).  The model is pure, so a different answer is a disagreement.
+    t_pass2 = time.time()
+    seen = {(d["suite"], d["req"]) for d in disagreements}
+    budget = max(10.0, 1.5 * (t1 - t0))
+    for c, a, b in reversed(list(zip(cases, impl_out, model_out))):
+        if time.time() - t_pass2 > budget:
+            break
+        if getattr(c, "stateless", True) is False:
+            continue
+        a2 = common.run_impl(c)
+        if a2 != a and a2 != b and (c.suite, c.req) not in seen:
+            seen.add((c.suite, c.req))
+            d = {"suite": c.suite, "cls": c.cls, "req": c.req, "info": c.info, "impl": a2[:2000], "model": b[:2000],
+                 "first_answer": a[:500], "history_dependent": True, "_case": c}
+            disagreements.append(d)
+            r = common.run_oracle(c)
+            if r is not None:
+                r = {"answer_depends_on_earlier_calls_in_the_process": True, "failure": r}
+                oracle_failures.append({"suite": c.suite, "cls": c.cls, "req": c.req, "info": c.info,
+                                        "failure": r, "_case": c})
     t3 = time.time()
     stats = {"impl_s": round(t1 - t0, 2), "model_s": round(t2 - t1, 2), "oracle_s": round(t3 - t2, 2)}
     return disagreements, oracle_failures, stats, impl_out
